@@ -92,10 +92,20 @@ type Gen struct {
 	inFilter bool
 }
 
+// KnownTriggers: trigger names of the findings listed in KNOWN_FINDINGS.txt
+// (set once per process). In most runs the generator steers around commands
+// that satisfy one, so that exploration continues past a recorded defect.
+var KnownTriggers = map[string]bool{}
+
 func NewGen(seed uint64, p *Profile) *Gen {
 	g := &Gen{R: NewRng(seed), P: p, defs: map[string][]TableDef{}, nextID: 1, nextW: 1, avoid: map[string]bool{}}
 	g.makeWorld()
 	g.drawCfg()
+	if g.Cfg.AvoidKnown {
+		for k := range KnownTriggers {
+			g.avoid[k] = true
+		}
+	}
 	return g
 }
 
@@ -784,6 +794,9 @@ func (g *Gen) try(m *Model, eng *Engine) *Cmd {
 		}
 	case "batchg":
 		cmd.Op, cmd.Actor, cmd.T = "BatchGet", "reader", ""
+		if g.avoid["v1-batchget"] && g.W.SDKs[c] == "v1" {
+			return nil
+		}
 		n := r.Range(1, 5)
 		seen := map[string]bool{}
 		for i := 0; i < n; i++ {
@@ -792,9 +805,9 @@ func (g *Gen) try(m *Model, eng *Engine) *Cmd {
 				continue
 			}
 			var k Item
-			if g.avoid["batchget-absent"] && len(tmt.Items) > 0 {
+			if g.avoid["batchget-absent-key"] && len(tmt.Items) > 0 {
 				k = keyOf(tmt.Def, tmt.Items[pick(r, sortedKeys(tmt.Items))])
-			} else if g.avoid["batchget-absent"] {
+			} else if g.avoid["batchget-absent-key"] {
 				continue
 			} else {
 				k = g.keyFor(tn, tmt.Def, tmt)
@@ -841,7 +854,7 @@ func (g *Gen) try(m *Model, eng *Engine) *Cmd {
 		}
 		ix := pick(r, cands)
 		cmd.Op, cmd.Actor, cmd.IdxDef = "IndexCreate", "manager", &ix
-		cmd.Helper = (ix.Range == nil || ix.Range.Type == "S") && r.Chance(0.4)
+		cmd.Helper = (ix.Range == nil || ix.Range.Type == "S") && mt.Def.Billing == "PAY_PER_REQUEST" && r.Chance(0.4)
 	case "idxdrop":
 		if mt == nil {
 			return nil
@@ -897,17 +910,48 @@ func (g *Gen) try(m *Model, eng *Engine) *Cmd {
 		if kd.Type == "N" {
 			wrong = S("five")
 		}
+		// the other key attributes of the indexes keyed by kd are made present, so
+		// that the index key is complete and its type necessarily checked (an
+		// ill-typed attribute of an incomplete index key is accepted by the
+		// library and rejected by DynamoDB: a usage restriction, C16, not claimed)
+		var others []KeyDef
+		for _, ix := range def.Indexes {
+			uses := false
+			for _, k := range ix.KeyAttrs() {
+				uses = uses || k.Name == kd.Name
+			}
+			if !uses {
+				continue
+			}
+			for _, k := range ix.KeyAttrs() {
+				if k.Name != kd.Name && k.Name != def.Hash.Name && (def.Range == nil || k.Name != def.Range.Name) {
+					others = append(others, k)
+				}
+			}
+		}
 		if r.Chance(0.5) {
 			cmd.Op, cmd.Actor = "Put", "injector"
 			cmd.Item = g.item(name, def, g.keyFor(name, def, mt))
 			cmd.Item[kd.Name] = wrong
+			for _, k := range others {
+				if _, ok := cmd.Item[k.Name]; !ok {
+					cmd.Item[k.Name] = g.idxAttrVal(name, k.Name, k.Type)
+				}
+			}
 		} else {
 			cmd.Op, cmd.Actor = "Update", "injector"
 			cmd.Key = g.keyFor(name, def, mt)
 			cmd.Upd = Update{{Kind: "SET", Path: P(kd.Name), Form: "val", Val: wrong}, {Kind: "SET", Path: P("a"), Form: "val", Val: g.value("S")}}
+			seen := map[string]bool{}
+			for _, k := range others {
+				if !seen[k.Name] {
+					seen[k.Name] = true
+					cmd.Upd = append(cmd.Upd, UpdAction{Kind: "SET", Path: P(k.Name), Form: "val", Val: g.idxAttrVal(name, k.Name, k.Type)})
+				}
+			}
 		}
 	case "keyupdate":
-		if mt == nil {
+		if mt == nil || g.avoid["update-names-key-attribute"] {
 			return nil
 		}
 		cmd.Op, cmd.Actor = "Update", "injector"
@@ -1077,12 +1121,12 @@ func (g *Gen) bad(cmd *Cmd, name string, def TableDef, mt *MTable) *Cmd {
 	case "syntax-update":
 		cmd.Base = "Update"
 		cmd.Key = key
-		cmd.RawExpr = pick(r, []string{"SET a = ", "SET a :x", "SET = :x", "a = :x", "SET a = :x,", "REMOVE", "SET a = :x REMOVE", "ADD a", "SET a = :x SET b = :x", "SET a = :x + "})
+		cmd.RawExpr = pick(r, []string{"SET a = ", "SET a :x", "SET = :x", "a = :x", "SET a = :x,", "REMOVE", "ADD a", "SET a = :x + "})
 		cmd.RawVals = Item{":x": S("a")}
 	case "illtyped-update":
 		cmd.Base = "Update"
 		cmd.Key = key
-		cmd.RawExpr = pick(r, []string{"SET n = n + :x", "SET a = a - :x", "ADD a :x", "DELETE n :x", "SET l = list_append(l, :x)", "SET b = :x, n = zz + :x"})
+		cmd.RawExpr = pick(r, []string{"SET n = n + :x", "SET a = a - :x", "SET l = list_append(l, :x)", "SET b = :x, n = zz + :x"})
 		cmd.RawVals = Item{":x": S("a")}
 	case "syntax-filter":
 		cmd.Base = pick(r, []string{"Scan", "QueryFilter"})
